@@ -112,11 +112,17 @@ func TypeDefs(mo *m.Model) []*openfgav1.TypeDefinition {
 		}
 		for _, r := range td.Relations {
 			p.Relations[r.Name] = Rewrite(r.Rewrite)
+			if mo.SparseMeta && len(r.Restr) == 0 {
+				continue
+			}
 			md := &openfgav1.RelationMetadata{}
 			for _, re := range r.Restr {
 				md.DirectlyRelatedUserTypes = append(md.DirectlyRelatedUserTypes, Restriction(re))
 			}
 			p.Metadata.Relations[r.Name] = md
+		}
+		if mo.SparseMeta && p.Metadata != nil && len(p.Metadata.Relations) == 0 {
+			p.Metadata = nil
 		}
 		out = append(out, p)
 	}
